@@ -202,6 +202,7 @@ func gen(c *harness.C) []harness.Case {
 		maxN, maxPS = 10, 5
 	}
 	var cases []harness.Case
+	cases = append(cases, dealCases(c)...)
 	for n := 2; n <= maxN; n++ {
 		for t := 2; t <= n; t++ {
 			reps := 3
